@@ -224,7 +224,14 @@ def invalid_for(spec, rng, depth=0):
     cands.append(None)
   if spec.frozen:
     d = spec.default
-    cands.append(d + 1 if isinstance(d, int) else 'not-frozen')
+    cands.append(d + 1 if isinstance(d, int) and not isinstance(d, bool) else 'not-frozen')
+    if d is not None:
+      cands.append(None)        # also when the frozen spec is noneable
+    if isinstance(d, bool):
+      cands.append(not d)
+    # "invalid" is decided by the reference rule for frozen specs (the only
+    # acceptable value is the frozen one), not by the library's own apply.
+    return rng.choice([c for c in cands if c != d] or [d])
   if isinstance(spec, T.Bool):
     cands += ['x', 2, 1.5]
   elif isinstance(spec, T.Int):
